@@ -85,7 +85,13 @@ def forward_consumer(W, f, t):
         # the `for` desugaring: into_iter then next in a loop
         nxt = [u for u, i in users if last_seg(u.callee.best) == 'next' and i == 0]
         if nxt:
-            return 'for-loop', chain, nxt[0]
+            # a `for` loop calls next() in a loop; a lone next() takes whatever element comes first in hash order
+            G = W.guards(f)
+            in_loop = any(nxt[0].bb in body for body in G.loops())
+            if in_loop:
+                return 'for-loop', chain, nxt[0]
+            chain.append('next')
+            return 'ordered:next', chain, nxt[0]
         u, i = users[0]
         seg = last_seg(u.callee.best) if u.callee.indirect is None else 'indirect'
         chain.append(seg)
